@@ -238,8 +238,6 @@ def conv(
             groups = tensor.shape[1]
         weight = kernel.expand(groups, 1, *kernel.shape[-K:])
         kwargs = dict(
-            tensor,
-            weight,
             stride=stride,
             dilation=dilation,
             padding=0 if padding == PaddingMode.NONE else margin,
